@@ -132,6 +132,9 @@ type params struct {
 	packed bool   // all messages of the batch in ONE segment instead of one segment each
 	follow bool   // after the first call is over a GetBlock(req) is issued and answered conformingly
 	frag   bool   // short reads / split writes offered on the client's connection
+	// slow: the calling goroutine is scheduled only when nothing else can run (rt.Config.Lazy): the
+	// zero-deviation schedule is "the caller is descheduled while the receive loop works ahead"
+	slow bool
 }
 
 func (p params) name() string {
@@ -144,6 +147,9 @@ func (p params) name() string {
 	}
 	if p.frag {
 		n += "|frag"
+	}
+	if p.slow {
+		n += "|slow-caller"
 	}
 	return n
 }
@@ -309,7 +315,11 @@ func scenario(p params) e1lib.Scenario {
 	check := func(r *rt.Result) []rt.Finding {
 		return oracle(p, r)
 	}
-	return e1lib.Scenario{Name: p.name(), Body: body, Check: check, Cfg: rt.Config{Horizon: 30 * time.Minute}}
+	cfg := rt.Config{Horizon: 30 * time.Minute}
+	if p.slow {
+		cfg.Lazy = []string{"caller"}
+	}
+	return e1lib.Scenario{Name: p.name(), Body: body, Check: check, Cfg: cfg}
 }
 
 // finish is the application: it waits for its n calls; every timeout involved (batch start
@@ -495,8 +505,9 @@ func oracle(p params, r *rt.Result) []rt.Finding {
 		if badEnd {
 			return verdictFinding()
 		}
-		if p.follow && conforming && follow != wantBlock {
-			return fail("getblock:second-call", "the second request returned "+follow+", want "+wantBlock)
+		if p.follow && !closes && !strings.Contains(script, "g") && strings.HasSuffix(script, "D") && follow != wantBlock {
+			// the first batch was complete (whatever it contained): the next call gets its own answer
+			return fail("getblock:second-call", "the second request (answered with exactly the requested block) returned "+follow+", want "+wantBlock)
 		}
 	}
 	return nil
@@ -743,8 +754,19 @@ func TestC23(t *testing.T) {
 			params{api: "GetBlock", req: 'b', script: "SbD", packed: true},
 			params{api: "GetBlockRange", req: 'b', script: "SbsD", packed: true},
 		)
+		// the calling goroutine is slow (descheduled while the receive loop works through the batch)
+		ps = append(ps,
+			params{api: "GetBlock", req: 'b', script: "SbsD", slow: true},
+			params{api: "GetBlock", req: 'b', script: "SbD", slow: true},
+			params{api: "GetBlock", req: 'b', script: "SbsD", follow: true, slow: true},
+			params{api: "GetBlock", req: 'b', script: "SsD", follow: true},
+		)
 		if thorough {
 			ps = append(ps,
+				params{api: "GetBlock", req: 'b', script: "SD", slow: true},
+				params{api: "GetBlock", req: 'b', script: "SD", follow: true},
+				params{api: "GetBlock", req: 'b', script: "SbbD", follow: true, slow: true},
+				params{api: "GetBlockRange", req: 'b', script: "SbsD", slow: true},
 				params{api: "GetBlock", req: 'b', script: "SbX"},
 				params{api: "GetBlock", req: 'b', script: "SbbD"},
 				params{api: "GetBlock", req: 'b', script: "SgD"},
